@@ -36,7 +36,8 @@ THOROUGH_RUNS = 400_000
 EXPECT_PROBES = ["too_old_rejected", "jump_beyond_capacity", "out_of_order_in_window", "missing_value_update", "overwrite",
                  "half_period_jitter", "unaligned_datetime_query", "query_closer_than_one_period", "dump_load_roundtrip",
                  "wrapped_window", "moving_window_variant", "gap_split", "query_with_hole_inside",
-                 "valid_slot_overwritten_by_missing", "missing_bridges_two_gaps", "dump_load_of_empty_buffer"]
+                 "valid_slot_overwritten_by_missing", "missing_bridges_two_gaps", "dump_load_of_empty_buffer",
+                 "align_to_in_dst_zone"]
 
 MISSING = None
 
@@ -45,9 +46,14 @@ class Model:
     """dict slot -> value | MISSING, window = newest-cap+1 .. newest."""
 
     def __init__(self, cap: int, period_us: int, align: datetime) -> None:
-        self.cap, self.period_us, self.align = cap, period_us, align
+        from datetime import timezone
+
+        # all model arithmetic in UTC (absolute time): `aware + timedelta` is wall-clock arithmetic in the
+        # datetime's own zone and would be off across a daylight-saving change
+        self.cap, self.period_us, self.align = cap, period_us, align.astimezone(timezone.utc)
         self.newest: int | None = None
         self.data: dict[int, float | None] = {}
+        self.slot_base = 0      # where (in slots from align_to) the generated history starts
 
     def slot_frac(self, ts: datetime) -> tuple[int, int]:
         d = ts - self.align
@@ -242,7 +248,7 @@ def _gen_history(sim: Sim, m: Model, n: int) -> list[tuple[datetime, float | Non
     """A regular stream through the faulty transport -> list of (timestamp, value, kind)."""
     ch = sim.ch
     out: list[tuple[datetime, float | None, str]] = []
-    cur = ch.int_between("first_slot", -5, 50)
+    cur = ch.int_between("first_slot", -5, 50) + m.slot_base
     held: list[tuple[int, float]] = []
     val = 0.0
     for _ in range(n):
@@ -303,10 +309,22 @@ def scenario_buffer(sim: Sim) -> None:
     period_us = ch.choice("period", [1_000_000, 500_000, 1_000, 7_000_000])
     align = datetime(2024, 1, 1, tzinfo=sim.epoch.tzinfo) + timedelta(microseconds=ch.choice(
         "align_off", [0, 0, 250_000, 333_333, 999_999, 1]) % period_us)
+    dst_far = False
+    if ch.chance("align_in_dst_zone", 0.12):
+        # the same kind of alignment point, given in a zone that observes daylight saving and lies on the other
+        # side of a clock change than the data (one fixed instant; the slot grid is align_to + k * period)
+        from zoneinfo import ZoneInfo
+
+        align = datetime(2023, 7, 1, 0, 0, tzinfo=ZoneInfo("Europe/Berlin")) + timedelta(microseconds=ch.choice(
+            "align_off_dst", [0, 250_000, 1]) % period_us)
+        sim.probe("align_to_in_dst_zone")
+        dst_far = True
     container = ch.draw("container", 2)
     buf: Any = OrderedRingBuffer(np.empty(shape=(cap,), dtype=float) if container == 0 else [0.0] * cap,
                                  timedelta(microseconds=period_us), align)
     m = Model(cap, period_us, align)
+    if dst_far:
+        m.slot_base = (244 * 86400 * 1_000_000) // period_us    # ~8 months later: the other side of the clock change
     sig = {"container": "numpy" if container == 0 else "list"}
     sim.config.update(cap=cap, period_us=period_us, container=sig["container"], align_off=str(align))
     sim.note(f"buffer cap={cap} period={period_us}us container={sig['container']} align={align}")
